@@ -41,8 +41,8 @@ def run(c: sym.Ctx, spec: Dict[str, Any], n_msgs: int = 1) -> Lab:
     ack = pick(c, spec, "ack", ACKS)
     async_ack = pick(c, spec, "async_ack", (False, True))
     target_kind = pick(c, spec, "target", ("async", "sync"))
-    outcomes = [pick(c, spec, f"outcome{i}", OUTCOMES if target_kind == "async" else OUTCOMES[:5]) for i in range(n_msgs)]
-    tl = [outcomes[i] in ("timeout", "timeout0") or pick(c, spec, f"timeout_label{i}", (False, True)) for i in range(n_msgs)]
+    outcomes = [pick(c, spec, f"outcome{i}", spec.get("outcome_choices", OUTCOMES) if target_kind == "async" else OUTCOMES[:5]) for i in range(n_msgs)]
+    tl = [outcomes[i] in ("timeout", "timeout0", "timeout_cleanup") or pick(c, spec, f"timeout_label{i}", (False, True)) for i in range(n_msgs)]
     bfail = [pick(c, spec, f"backend_fail{i}", (False, True)) for i in range(n_msgs)]
     deps = spec.get("deps", "none")
     propagate = spec.get("propagate", True)
@@ -63,6 +63,16 @@ def run(c: sym.Ctx, spec: Dict[str, Any], n_msgs: int = 1) -> Lab:
 
     def outcome_of(i: int) -> str:
         return outcomes[i]
+
+    async def hang(i: int) -> None:
+        try:
+            await lab.gate(f"hang:{i}")  # never opened: only the timer can end it
+        except asyncio.CancelledError:
+            if outcome_of(i) == "timeout_cleanup":
+                # the function's own clean-up after the cancellation takes a while (the scheduler decides how long)
+                lab.rec("cleanup_begin", i)
+                await lab.gate(f"cleanup:{i}")
+            raise
 
     def finish(i: int) -> Any:
         o = outcome_of(i)
@@ -116,8 +126,8 @@ def run(c: sym.Ctx, spec: Dict[str, Any], n_msgs: int = 1) -> Lab:
             async def target(i: int) -> Any:
                 lab.rec("task_start", i)
                 try:
-                    if outcome_of(i) in ("timeout", "timeout0"):
-                        await lab.gate(f"hang:{i}")  # never opened: only the timer can end it
+                    if outcome_of(i) in ("timeout", "timeout0", "timeout_cleanup"):
+                        await hang(i)  # never opened: only the timer can end it
                         return ("late", i)
                     if spec.get("task_gate", n_msgs > 1):
                         await lab.gate(f"task:{i}")
@@ -140,8 +150,8 @@ def run(c: sym.Ctx, spec: Dict[str, Any], n_msgs: int = 1) -> Lab:
             async def target(i: int, a: str = TaskiqDepends(d_a)) -> Any:  # type: ignore[misc]
                 lab.rec("task_start", i)
                 try:
-                    if outcome_of(i) == "timeout":
-                        await lab.gate(f"hang:{i}")
+                    if outcome_of(i) in ("timeout", "timeout_cleanup"):
+                        await hang(i)
                     return finish(i)
                 finally:
                     lab.rec("task_end", i)
@@ -149,8 +159,8 @@ def run(c: sym.Ctx, spec: Dict[str, Any], n_msgs: int = 1) -> Lab:
             async def target(i: int, a: str = TaskiqDepends(d_a), b: str = TaskiqDepends(d_b)) -> Any:  # type: ignore[misc]
                 lab.rec("task_start", i)
                 try:
-                    if outcome_of(i) == "timeout":
-                        await lab.gate(f"hang:{i}")
+                    if outcome_of(i) in ("timeout", "timeout_cleanup"):
+                        await hang(i)
                     return finish(i)
                 finally:
                     lab.rec("task_end", i)
@@ -172,8 +182,8 @@ def run(c: sym.Ctx, spec: Dict[str, Any], n_msgs: int = 1) -> Lab:
             async def target(i: int, d: str = TaskiqDepends(d_d, use_cache=False), e: str = TaskiqDepends(d_e, use_cache=False)) -> Any:  # type: ignore[misc]
                 lab.rec("task_start", i)
                 try:
-                    if outcome_of(i) == "timeout":
-                        await lab.gate(f"hang:{i}")
+                    if outcome_of(i) in ("timeout", "timeout_cleanup"):
+                        await hang(i)
                     return finish(i)
                 finally:
                     lab.rec("task_end", i)
@@ -205,8 +215,8 @@ def run(c: sym.Ctx, spec: Dict[str, Any], n_msgs: int = 1) -> Lab:
             async def target(i: int, m: str = TaskiqDepends(d_cm), nn: str = TaskiqDepends(d_acm), a: str = TaskiqDepends(d_a)) -> Any:  # type: ignore[misc]
                 lab.rec("task_start", i)
                 try:
-                    if outcome_of(i) == "timeout":
-                        await lab.gate(f"hang:{i}")
+                    if outcome_of(i) in ("timeout", "timeout_cleanup"):
+                        await hang(i)
                     return finish(i)
                 finally:
                     lab.rec("task_end", i)
@@ -217,8 +227,8 @@ def run(c: sym.Ctx, spec: Dict[str, Any], n_msgs: int = 1) -> Lab:
             async def target(i: int, p: str = TaskiqDepends(d_p, use_cache=False)) -> Any:  # type: ignore[misc]
                 lab.rec("task_start", i)
                 try:
-                    if outcome_of(i) == "timeout":
-                        await lab.gate(f"hang:{i}")
+                    if outcome_of(i) in ("timeout", "timeout_cleanup"):
+                        await hang(i)
                     return finish(i)
                 finally:
                     lab.rec("task_end", i)
@@ -256,8 +266,8 @@ def run(c: sym.Ctx, spec: Dict[str, Any], n_msgs: int = 1) -> Lab:
             async def target(i: int, z: str = TaskiqDepends(d_z)) -> Any:  # type: ignore[misc]
                 lab.rec("task_start", i)
                 try:
-                    if outcome_of(i) == "timeout":
-                        await lab.gate(f"hang:{i}")
+                    if outcome_of(i) in ("timeout", "timeout_cleanup"):
+                        await hang(i)
                     return finish(i)
                 finally:
                     lab.rec("task_end", i)
